@@ -11,7 +11,7 @@ RULE = ("Generated operation histories over one DataContainer (or CornerDataCont
         "attributes), attribute clear, as_array, delete_attribute, container clear. After every step every attribute is read "
         "at every index in both storages and compared with a dict-with-default model. non-trivial = the history grows the "
         "container after an attribute was created and reads a never-written entry; distinct = distinct histories.")
-ASSUMPTIONS = ["strings are <= 32 characters (documented limit of the dense storage)", "|ints| < 2**62, floats without NaN",
+ASSUMPTIONS = ["strings are <= 32 characters (documented limit of the dense storage)", "|ints| <= 2**53 (exactly representable when widened to float), floats without NaN",
                "attribute names are fresh (re-creating an existing name is documented as an override and is not exercised)"]
 
 TYPES = ["bool", "int", "float", "complex", "str"]
@@ -30,7 +30,7 @@ def scalar_desc():
     return st.one_of(
         st.tuples(st.sampled_from(["pybool", "npbool"]), st.booleans()),
         st.tuples(st.sampled_from(["pyint", "npint32", "npint64"]), ints),
-        st.tuples(st.just("pyint"), st.integers(-2 ** 61, 2 ** 61)),
+        st.tuples(st.just("pyint"), st.integers(-2 ** 53, 2 ** 53)),
         st.tuples(st.just("npuint8"), small),
         st.tuples(st.just("npint16"), st.integers(-100, 100)),
         st.tuples(st.sampled_from(["pyfloat", "npfloat32", "npfloat64"]), flo),
